@@ -484,6 +484,27 @@ def _sequences(alphabet, maxlen):
         yield from itertools.product(alphabet, repeat=k)
 
 
+def dfa_name_pairs(rng, quick):
+    """Pairs of distinct permutations of equal length whose database entries must not interfere."""
+    Perm = D.P()
+    pairs = [(a, b) for a in D.perms_upto(3, 1) for b in D.perms_upto(3, 1) if a != b and len(a) == len(b)]
+    for _ in range(60 if quick else 600):
+        n = rng.randrange(4, 13)
+        a, b = D.random_perm(rng, n), D.random_perm(rng, n)
+        if a != b:
+            pairs.append((a, b))
+    for _ in range(6 if quick else 40):  # same digits, different permutations: (..1,0..10..) versus (..10..1,0..)
+        for n in (11, 12, 13):
+            rest = [v for v in range(n) if v not in (0, 1, 10)]
+            rng.shuffle(rest)
+            i = rng.randrange(0, len(rest) + 1)
+            j = rng.randrange(i, len(rest) + 1)
+            a = rest[:i] + [1, 0] + rest[i:j] + [10] + rest[j:]
+            b = rest[:i] + [10] + rest[i:j] + [1, 0] + rest[j:]
+            pairs.append((Perm(a), Perm(b)))
+    return pairs
+
+
 def run(ctx):
     quick = ctx.tier == "quick"
     Perm = D.P()
@@ -574,21 +595,7 @@ def run(ctx):
     ctx.add_sample("C20.dfa_db", dfa_inputs[n_exh + 1])
 
     # ---- distinct permutations, distinct entries
-    pairs = [(a, b) for a in D.perms_upto(3, 1) for b in D.perms_upto(3, 1) if a != b and len(a) == len(b)]
-    for _ in range(60 if quick else 600):
-        n = rng.randrange(4, 13)
-        a, b = D.random_perm(rng, n), D.random_perm(rng, n)
-        if a != b:
-            pairs.append((a, b))
-    for _ in range(6 if quick else 40):  # same digits, different permutations: (..1,0..10..) versus (..10..1,0..)
-        n = rng.randrange(11, 14)
-        rest = [v for v in range(n) if v not in (0, 1, 10)]
-        rng.shuffle(rest)
-        i = rng.randrange(0, len(rest) + 1)
-        j = rng.randrange(i, len(rest) + 1)
-        a = rest[:i] + [1, 0] + rest[i:j] + [10] + rest[j:]
-        b = rest[:i] + [10] + rest[i:j] + [1, 0] + rest[j:]
-        pairs.append((Perm(a), Perm(b)))
+    pairs = dfa_name_pairs(rng, quick)
     ctx.run("C20.dfa_names", pairs, chunk=10,
             rule="all ordered pairs of distinct permutations of equal length <= 3, seeded pairs of length 4-12, and seeded pairs of "
                  "length 11-13 that differ only in reading the digits 1,0 / 10")
